@@ -40,3 +40,8 @@
 (declare-fun method_missing (Int Int) Bool)
 (declare-fun method_passctx (Int Int) Bool)
 (declare-fun method_reterr (Int Int) Bool)
+(declare-fun type_in (Int Int) Int)
+(declare-fun type_elem (Int) Int)
+(declare-fun type_out (Int Int) Int)
+(declare-fun type_numout (Int) Int)
+(declare-fun type_implements (Int Int) Bool)
